@@ -2,6 +2,12 @@
 from props_table import PROPS
 
 META = {
+    "C15": {
+        "text": "Lean 4 theorems over a model of the miner's penalty/fee-debt code (monies.rs fee formulas over Int with the code's floor divisions and extracted constants; apply_penalty / repay_partial_debt_in_priority_order / repay_debts; deadline-end continued-fault + expired pre-commit charge, disputed PoSt, consensus fault, early termination, block penalty; debt-gated Withdraw/PreCommit/DeclareFaultsRecovered): termination_fee_bounds (2 % pledge <= fee <= max(8.5 % pledge, 105 % fault fee)), penalty_nonneg, penalty_accounting_partial + penalty_accounting_with_loss (debt' + burnt + reporter reward (+ lost) = debt + charged for every step, value only to the burnt-funds actor and the reporter), reporter_le_taken, debt_blocks + gate_repays_all, continued_fault_charged_partial, history_accounting (whole histories, any mix of funds), and consensus_fault_unsent_reward_lost: a proved negation witness (finding F4) for the consensus-fault step with a failing reward transfer in the unrepaired code. Tied to the code on every run by (i) evaluating the real pub fee functions on boundary grids/random inputs against the compiled model and the specified bounds and (ii) differential execution of fault/dispute/consensus-fault/termination histories on a real miner (plain CreateMiner, real power/reward/market actors, fault plan failing the reward transfer) against the model, with an independent oracle summing burn sends, reporter sends and fee_debt deltas per message from the invocation trace.",
+        "design_ref": "DESIGN.md §7 C15, §8 F4",
+        "note": "Trusted: Lean kernel (axioms propext, Classical.choice, Quot.sound only); hand-written model tied differentially (coverage in evidence); harness VM in place of ref-fvm; vesting table, filter estimates, faulty power and other actors' answers are inputs of the model. _partial: penalty_accounting (F4, refuted for the failing-transfer case of the unrepaired code, holds in full once Gen.cfBurnsUnsentReward = true) and continued_fault_charged (faulty power is an input, no deadline/partition model). Known finding F4 is reported as KNOWN-FINDING, any other C15 violation fails the check.",
+        "technique": "Lean 4 algebraic-law + per-step/whole-history accounting proofs + differential correspondence of model and real actor + trace oracle",
+    },
     "C16": {
         "text": "Lean 4 theorems over a model of the paych actor that follows the Rust control flow: acceptance soundness (update_sound), exact owed delta, lane-nonce monotonicity and no_replay over arbitrary later histories, 0 <= owed <= balance in every reachable state (inv_owed), settlement height only extends, collect_exact and collect_after_delay (>= settle epoch + 1440). The model is tied to the code on every run by differential execution of generated voucher/settle/collect histories on the real actor in the harness VM against the compiled model, with an independent oracle evaluating the property on the real state.",
         "design_ref": "DESIGN.md §7 C16",
